@@ -10,7 +10,7 @@ from vlib import *
 TY = {"int": "TInt", "bool": "TBool", "string": "TString", "dur": "TDur", "ctx": "TCtx", "err": "TErr",
       "ns": "(TNs 0)", "empty": "(TNs 1)", "myns": "(TNs 2)", "float64": "(TOther 1)", "int64": "(TOther 2)",
       "mystring": "(TOther 3)", "strslice": "(TSlice TString)", "intptr": "(TOther 4)", "iface": "(TOther 5)",
-      "ctxstruct": "(TOther 6)", "ctxptr": "(TOther 7)", "ctxiface": "(TOther 8)"}
+      "ctxstruct": "(TOther 6)", "ctxptr": "(TOther 7)", "ctxiface": "(TOther 8)", "fakedur": "(TOther 9)"}
 SUP = ("int", "bool", "string", "dur")
 
 
@@ -71,7 +71,7 @@ def gen_val(rng, t, salt=None):
 
 
 LOOKALIKE = {"int": ["int64", "dur", "float64", "nil", "string"], "string": ["mystring", "nil", "strslice", "int"],
-             "dur": ["int", "int64", "nil"], "bool": ["int", "nil", "string"]}
+             "dur": ["int", "int64", "nil", "fakedur", "fakedur"], "bool": ["int", "nil", "string"]}
 
 
 def right_args(rng, s):
